@@ -17,13 +17,14 @@ st = subprocess.run(["git", "-C", "/repo", "status", "--porcelain"], capture_out
 if st:
     print("repo not clean:", st)
     sys.exit(2)
-r = subprocess.run(["git", "-C", "/repo", "apply", "--3way", patch], capture_output=True, text=True)
+r = subprocess.run(["git", "-C", "/repo", "apply", patch], capture_output=True, text=True)
 if r.returncode != 0:
-    r = subprocess.run(["git", "-C", "/repo", "apply", patch], capture_output=True, text=True)
-if r.returncode != 0:
-    print("patch does not apply:", r.stderr)
-    subprocess.run(["git", "-C", "/repo", "checkout", "--", "."])
-    sys.exit(2)
+    r = subprocess.run(["git", "-C", "/repo", "apply", "--3way", patch], capture_output=True, text=True)
+    st2 = subprocess.run(["git", "-C", "/repo", "status", "--porcelain"], capture_output=True, text=True).stdout
+    if r.returncode != 0 or "UU " in st2:
+        print("patch does not apply (needs a rebased patch_rebased.diff):", r.stderr[-300:])
+        subprocess.run(["git", "-C", "/repo", "reset", "-q", "--hard", "HEAD"])
+        sys.exit(2)
 res = {}
 try:
     for c in checks:
